@@ -21,6 +21,9 @@ RULE = ("pipelines phase -> haplotag -> unphase -> haplotagphase through the rea
         "The pre-phased and `unrecognised` streams also write `|` on calls VcfReader does not regard as phased: homozygous "
         "a|a:PS, a|b without PS key or with PS '.', records without ALT or at a duplicate position (inserted into all "
         "files), multi-ALT records under --no-mav, a second sample without any read. "
+        "History stream: the reads first get HP/PS tags from an earlier haplotag run against another phasing of the same "
+        "haplotypes (opposite orientation, other PS ids, all samples), then haplotag with the new VCF for all samples or "
+        "with --sample for the first sample only; samples not selected must come out unphased, selected ones as the new VCF says. "
         "L2-only streams: phasings that split a read-connected region into two sets (reads over two sets), phasings "
         "that contradict the reads (mixed votes, gap threshold), non-default --gap-threshold/--cut-poly/--only-indels, "
         "foreign pre-phased calls (flipped order, other PS). A case = one chromosome of one pipeline; it is "
@@ -61,6 +64,7 @@ SIG_PRE = "haplotagphase:prephased-altered"          # any alteration of a pre-p
 SIG_HOM = "haplotagphase:prephased-homozygous-unphased"             # a|a:PS -> a/a:.
 SIG_SKIP = "haplotagphase:prephased-on-skipped-record-unphased"     # no ALT / duplicate position / multi-ALT under --no-mav
 SIG_NOKEY = "haplotagphase:prephased-no-ps-key-gains-ps0"           # het a|b with FORMAT GT only -> a|b:0
+SIG_STALE = "history:unselected-sample-phased-from-stale-tags"      # haplotag --sample left old HP/PS tags on other samples
 SIG_PSDOT = "haplotagphase:prephased-ps-missing-rewritten"          # het a|b:. rewritten from the votes
 
 
@@ -202,6 +206,12 @@ def make_spec(rng, stream):
         spec["nomav"] = rng.random() < 0.15
         if spec["nsamples"] == 2 and rng.random() < 0.3:
             spec["bmode"] = "dropsample"
+    elif stream == "history":
+        spec["nsamples"] = rng.choice([2, 2, 3])
+        spec["phi"] = "synthetic"
+        spec["bmode"] = rng.choice(["same", "subsample"])
+        spec["het"] = rng.choice([0.85, 1.0])
+        spec["history"] = rng.choice(["first", "first", "all"])
     elif stream == "unrecognised":
         spec["prephase"] = rng.choice([0.3, 1.0])
         spec["unrec"] = rng.choice([0.6, 1.0])
@@ -331,6 +341,7 @@ def _run_pipeline(spec, impl, d):
             return res
     else:
         ph = {}
+        flipinfo = {}
         flipped = synth.Scenario(sc.ref, sc.variants, sc.samples,
                                  {s: {c: list(h) for c, h in dd.items()} for s, dd in sc.haps.items()})
         for s in sc.samples:
@@ -354,6 +365,7 @@ def _run_pipeline(spec, impl, d):
                                 continue                       # left unphased in the phased VCF
                             ph[s][c][i] = psid
                             f = flip ^ (1 if spec["phi"] == "noisy" and rng.random() < 0.3 else 0)
+                            flipinfo[(s, c, i)] = f
                             if f:
                                 a, b = flipped.haps[s][c][i]
                                 flipped.haps[s][c][i] = (b, a)
@@ -362,9 +374,49 @@ def _run_pipeline(spec, impl, d):
     extra_keys = add_extra_records(rng, sc, phased) if spec.get("extras") else set()
     pysam.tabix_index(phased, preset="vcf", force=True, keep_original=True)
 
+    # ---- history: the reads already carry HP/PS tags of an EARLIER haplotag run against another phasing of the
+    # same haplotypes (every set in the opposite orientation, other phase set ids, also records the new VCF leaves
+    # unphased), for all samples
+    bam_in = os.path.join(d, "B.bam")
+    sel_args = []
+    unsel = []
+    if spec.get("history"):
+        assert spec["phi"] == "synthetic"
+        ph_old = {}
+        flipped_old = synth.Scenario(sc.ref, sc.variants, sc.samples,
+                                     {s: {c: list(h) for c, h in dd.items()} for s, dd in sc.haps.items()})
+        for s in sc.samples:
+            ph_old[s] = {}
+            for c in groups:
+                ph_old[s][c] = {}
+                for gi, (lo, hi, idx) in enumerate(groups[c]):
+                    het = [i for i in idx if sc.haps[s][c][i][0] != sc.haps[s][c][i][1]]
+                    newf = [flipinfo[(s, c, i)] for i in het if (s, c, i) in flipinfo]
+                    fold = 1 - newf[0] if newf else rng.randint(0, 1)
+                    for i in het:
+                        ph_old[s][c][i] = 900000 + gi
+                        if fold:
+                            a, b = flipped_old.haps[s][c][i]
+                            flipped_old.haps[s][c][i] = (b, a)
+        old = os.path.join(d, "old.vcf")
+        synth.write_vcf(flipped_old, old, phased=ph_old)
+        pysam.tabix_index(old, preset="vcf", force=True, keep_original=True)
+        tagged_old = os.path.join(d, "tagged_old.bam")
+        rc, so, se = _cli(impl, ["haplotag", "--reference", fa, "-o", tagged_old, old + ".gz", bam_in], d)
+        res["steps"]["haplotag_old"] = rc
+        if rc != 0:
+            res["failed"] = ("haplotag", se[-1500:])
+            return res
+        pysam.index(tagged_old)
+        res["stale_tagged"] = sum(1 for a in decode_bam(tagged_old, sc.samples) if a[4] is not None)
+        bam_in = tagged_old
+        if spec["history"] == "first" and len(sc.samples) > 1:
+            sel_args = ["--sample", sc.samples[0]]
+            unsel = list(range(1, len(sc.samples)))
+
     # ---- step 2: haplotag
     tagged = os.path.join(d, "tagged.bam")
-    rc, so, se = _cli(impl, ["haplotag", "--reference", fa, "-o", tagged, phased + ".gz", os.path.join(d, "B.bam")], d)
+    rc, so, se = _cli(impl, ["haplotag", "--reference", fa, "-o", tagged] + sel_args + [phased + ".gz", bam_in], d)
     res["steps"]["haplotag"] = rc
     if rc != 0:
         res["failed"] = ("haplotag", se[-1500:])
@@ -524,7 +576,8 @@ def _run_pipeline(spec, impl, d):
                     sets.append(ps)
             rsets.append(sets)
         res["chroms"][c] = dict(ref=[BASE_CODE.get(b, 4) for b in sc.ref[c]], orig=orig, inp=inpt, out=out,
-                                reads=readss, votes=votes, cst=csts, cover=cover, rsets=rsets, mav=not spec.get("nomav"))
+                                reads=readss, votes=votes, cst=csts, cover=cover, rsets=rsets, mav=not spec.get("nomav"),
+                                unsel=unsel)
     assert ci == len(cap), (ci, len(cap))
     return res
 
@@ -581,7 +634,8 @@ def case_term(spec, ch):
     csts = "[" + "; ".join(cst_term(c) for c in ch["cst"]) + "]"
     return (f"(mkCase {params} {_zl(ch['ref'])} {table_term(ch['orig'])} {table_term(ch['inp'])} "
             f"{table_term(ch['out'])} {reads} {votes} {csts} {cover} {rsets} {term(bool(ch.get('mav', True)))} "
-            f"{_zl([r[4] for r in ch['inp']])})")
+            f"{_zl([r[4] for r in ch['inp']])} "
+            + ("[" + "; ".join(f"{i}%nat" for i in ch.get("unsel", [])) + "]" if ch.get("unsel") else "(@nil nat)") + ")")
 
 
 CHECKS = {
@@ -591,6 +645,7 @@ CHECKS = {
     "L1pre0": "l1_prephased_class 0",
     "L1pre1": "l1_prephased_class 1",
     "L1pre2": "l1_prephased_class 2",
+    "L1unsel": "l1_unselected",
     "L2cur": "l2_run Cur",
     "L2fix": "l2_run Fixed",
     "L2votes": "l2_votes",
@@ -600,7 +655,7 @@ CHECKS = {
     "Hef": "hyp_error_free",
     "Hsites": "hyp_sites",
 }
-CONSISTENT_STREAMS = ("plain", "prephased", "unrecognised", "params", "foreign")   # the phased VCF is a phasing of the reads' haplotypes
+CONSISTENT_STREAMS = ("plain", "prephased", "unrecognised", "params", "foreign", "history")   # the phased VCF is a phasing of the reads' haplotypes
 
 
 # =============================================================================== python-side summaries
@@ -690,6 +745,9 @@ def run_specs(ctx, specs, label):
         ctx.tally(f"stream.{spec['stream']}")
         ctx.tally(f"phi.{spec['phi']}")
         ctx.tally(f"bmode.{spec['bmode']}")
+        if spec.get("history"):
+            ctx.tally(f"history.second_run_selects_{spec['history']}")
+            ctx.tally("history.alignments_with_stale_tags", r.get("stale_tagged", 0))
         if "fatal" in r:
             raise RuntimeError("pipeline worker crashed:\n" + r["fatal"])
         if "failed" in r:
@@ -755,6 +813,14 @@ def report(ctx, meta, failing):
                 what = "; ".join(f"{c}:{p} sample#{si} {fmt_call(a)} -> {fmt_call(b)}" for p, si, a, b in alt[:4])
                 ctx.tally("violations." + sig.split(":")[1])
                 ctx.violation(sig, f"{texts[sig]}: {what} (pipeline spec {spec})", {"spec": spec, "signature": sig})
+    for i in failing["L1unsel"]:
+        spec, c, ch = meta[i]
+        bad = [f"{c}:{ri[0] + 1} sample#{si} {fmt_call(ri[3][si])} -> {fmt_call(ro[3][si])}"
+               for ri, ro in zip(ch["inp"], ch["out"]) for si in ch.get("unsel", [])
+               if ro[3][si][1] and not ri[3][si][1]]
+        ctx.violation(SIG_STALE, "a sample that the last haplotag run did not select (--sample) is phased by haplotagphase, "
+                      "i.e. from HP/PS tags of an earlier haplotag run that should have been removed: " + "; ".join(bad[:4]) +
+                      f" (pipeline spec {spec})", {"spec": spec, "signature": SIG_STALE})
     for lab, sig, txt in (("L1order", "haplotagphase:order-differs",
                            "a variant phased by haplotagphase has another haplotype order than in the phased VCF that tagged the reads"),
                           ("L1ps", "haplotagphase:ps-differs",
@@ -810,7 +876,11 @@ def run(ctx):
     specs.append(dict(seed=23, stream="unrecognised", nvars=8, nsamples=1, nchrom=1, het=0.7, ngroups=2, cov=8, homop=0.0,
                       phi="phase", bmode="same", prephase=0.6, foreign=False, params=None, unrec=0.3, extras=False,
                       nomav=True))
-    plan = [("plain", ctx.n(14, 200)), ("prephased", ctx.n(12, 160)), ("unrecognised", ctx.n(4, 50)),
+    # corpus: reads carrying the tags of an earlier haplotag run; the second run selects only the first sample
+    specs.append(dict(seed=31, stream="history", nvars=8, nsamples=2, nchrom=1, het=1.0, ngroups=2, cov=5, homop=0.0,
+                      phi="synthetic", bmode="same", prephase=0.0, foreign=False, params=None, unrec=0.0, extras=False,
+                      nomav=False, history="first"))
+    plan = [("history", ctx.n(3, 40)), ("plain", ctx.n(14, 200)), ("prephased", ctx.n(12, 160)), ("unrecognised", ctx.n(4, 50)),
             ("bridged", ctx.n(4, 40)), ("noisy", ctx.n(4, 40)), ("params", ctx.n(4, 40)), ("foreign", ctx.n(3, 30))]
     for stream, k in plan:
         for _ in range(k):
